@@ -16,7 +16,7 @@ def H(name, op, enforce, fns, arity, prio, addr, extra=(), unwind=10, timeout=90
     return Job(name='%s_%s_%s' % ('ah' if addr else 'dh', name, cfg), shim='dheap', contract='c13_dheap.c', harness='h_' + name, enforce=[enforce],
                shim_defines=['ARITY=%d' % arity, 'CMP_PRIO=%d' % prio],
                defines=['OP_' + op, 'ARITY=%d' % arity, 'CMP_PRIO=%d' % prio, 'NMAX=%d' % nmax, 'HMAX=%d' % hmax] + (['ADDRESSABLE'] if addr else []) + list(extra), object_bits=10,
-               functions=[pf + f for f in fns], unwind=unwind, timeout=timeout, tier=tier, mode=MODE,
+               functions=[pf + f for f in fns], unwind=unwind, timeout=timeout, tier=tier, mode=MODE, mem_gb=(4 if op in ('build', 'update_all') else 2),
                resolve={'OPT_CHECKLEN': r'^std::vector<unsigned int, std::allocator<unsigned int> ?>::_M_check_len\(', 'OPT_ALLOCCOPY': r'^unsigned int\* std::vector<unsigned int, std::allocator<unsigned int> ?>::_M_allocate_and_copy<'},
                replace_calls=[('OPT_CHECKLEN', 'stub_no_realloc_len'), ('OPT_ALLOCCOPY', 'stub_no_realloc_copy')], label=LABEL % (nmax, hmax), what=what)
 
@@ -70,7 +70,7 @@ def rh_jobs(js):
 def rh_class_jobs(js):
     """RadixHeap<K, identity, K, Radix> itself, from an arbitrary well-formed heap (contracts/c13_radixheap_class.c)"""
     RHF = r'tlx::RadixHeap<.*>::'
-    for radix, kn, t in [(2, 'i8', 'quick'), (4, 'u8', 'thorough')]:
+    for radix, kn, t in [(2, 'i8', 'quick')]:     # a second configuration (uint8_t, radix 4, 13 buckets) was planned; its struct layout differs and it was not finished
         kt, bits, sg = KEYS[kn]
         nb = rh_num_buckets(radix, bits)
         sd = ['KEY_T=%s' % kt, 'RADIX=%d' % radix]
@@ -92,7 +92,7 @@ def rh_class_jobs(js):
 
 def jobs(tier):
     js = []
-    cfgs = [(2, 0, 'quick'), (3, 1, 'quick'), (1, 0, 'thorough'), (4, 0, 'thorough'), (8, 0, 'thorough')]
+    cfgs = [(2, 0, 'quick'), (3, 1, 'quick'), (4, 0, 'thorough'), (8, 0, 'thorough')]
     VEC = r'std::vector<unsigned int, std::allocator<unsigned int> ?>'
     for ar, prio, t in cfgs:
         nmax, hmax = (4, 5)
@@ -146,6 +146,6 @@ META = {
     'level': 'other',
     'assumptions': ['key type uint32_t; comparators std::less and a comparator reading a symbolic external priority table',
                     'induction over the operation history is the stated composition step'],
-    'not_decided': ['d-ary heaps larger than 4 elements (handles up to 5); arities other than 2, 3 (quick) and 1, 4, 8 (thorough)', 'build_heap(first, last) and build_heap(const std::vector&): libstdc++ assign/resize paths exhaust solver memory (the rvalue overload, which shares heapify(), is covered)', 'std::vector growth beyond the capacity provided by the harness (reallocation entry points are replaced by stubs that fail when reached)', 'sanity_check() (std::queue internals)', 'RadixHeap: more than 3 keys in the heap, key types other than int8_t (radix 2) / uint8_t (radix 4) at class level (the leaf functions are decided for every radix and key type), emplace variants, swap_top_bucket, RadixHeapPair'],
+    'not_decided': ['d-ary heaps larger than 4 elements (handles up to 5); arities other than 2, 3 (quick) and 4, 8 (thorough)', 'build_heap(first, last) and build_heap(const std::vector&): libstdc++ assign/resize paths exhaust solver memory (the rvalue overload, which shares heapify(), is covered)', 'std::vector growth beyond the capacity provided by the harness (reallocation entry points are replaced by stubs that fail when reached)', 'sanity_check() (std::queue internals)', 'RadixHeap: more than 3 keys in the heap, key types and radices other than int8_t / radix 2 at class level (the leaf functions are decided for every radix and key type), emplace variants, swap_top_bucket, RadixHeapPair'],
     'explanation': 'every heap operation enforced from an arbitrary well-formed heap; membership by ghost key, multiset by ghost value; growing operations one job per size',
 }
